@@ -132,6 +132,6 @@ func runC15(c *Ctx) {
 		{algo: "gradient", initial: 4, min: 1, max: 8, smoothing: 1.0, queue: "fixed2", tol: 2.0, probe: -1},
 	}
 	for _, cfg := range cfgs {
-		c.runBFS(limModel(cfg, c15Hooks()), mc.BFSOptions{MaxDepth: c.Pick(8, 11), DevBound: -1, MaxStates: 600000})
+		c.runBFS(limModel(cfg, c15Hooks()), mc.BFSOptions{MaxDepth: c.Pick(8, 10), DevBound: -1, MaxStates: c.Pick(600000, 2500000)})
 	}
 }
